@@ -44,10 +44,18 @@ Print Assumptions C19_fee_bounds.
    eager / permissionless flow, only when the live allowance is below [max] in the lazy /
    permissioned flow) less the fee, else the old allowance less the fee with its old expiration.
    A fresh approval needs the user's authorisation of token.approve(user, forwarder, max, exp).
-   The expiration ledger is not in the past. *)
+   The expiration ledger is not in the past.
+   This includes RE-ENTERING targets: the target may, from inside the forwarded call, call
+   token.transfer_from(spender, from, to, amount) for any spender (e.g. the forwarder, whose
+   allowance max - fee from the user is in place during the call), token.approve(owner, ..) for any
+   owner, or the forwarder's own forward() - swallowing or propagating the failure.  [wf_call] (a
+   boolean, trivially true for the other target functions) says that nobody among the signers of
+   this call authorised that inner call and that its principal is not the target itself; then the
+   inner call is refused and the effects are exactly the ones above (see also C19_target_once). *)
 Theorem C19_exact_debit_credit :
   forall c cs k tok fee max exp target fn args user relayer au st' ret,
   1 <= min_temp_ttl (c_host c) ->
+  wf_call c (Forward k tok fee max exp target fn args user relayer au) = true ->
   let st := run c cs in
   step_ok c st (Forward k tok fee max exp target fn args user relayer au) = Ok (st', ret) ->
   let F := fwd_addr c k in
@@ -99,6 +107,7 @@ Print Assumptions C19_fresh_approval_under_user_tree.
    (b) a manager's sweep, for the permissioned forwarder's own balance. *)
 Theorem C19_debit_only_by_authorised_forward : forall c cs cl st' ret t h,
   1 <= min_temp_ttl (c_host c) ->
+  wf_call c cl = true ->
   let st := run c cs in
   step_ok c st cl = Ok (st', ret) ->
   balance (get_tok st' t) h < balance (get_tok st t) h ->
@@ -115,14 +124,18 @@ Proof. exact debit_only_by_authorised_forward. Qed.
 Print Assumptions C19_debit_only_by_authorised_forward.
 
 (* A successful forward invokes exactly the stated target call, once: the target's log grows by
-   exactly (fn, args), no other target is touched, and the value returned is the target's. *)
+   exactly (fn, args), no other target is touched, and the value returned is the target's.  A
+   re-entering target function (is_script) also logs the result of its inner call: 0 = refused. *)
 Theorem C19_target_once :
   forall c st k tok fee max exp target fn args user relayer au st' ret,
   1 <= min_temp_ttl (c_host c) ->
+  wf_call c (Forward k tok fee max exp target fn args user relayer au) = true ->
   step_ok c st (Forward k tok fee max exp target fn args user relayer au) = Ok (st', ret) ->
   In target (c_targets c) /\
   (forall g, get_log (logs st') g =
-     if N.eqb g target then get_log (logs st) target ++ [(fn, args)] else get_log (logs st) g) /\
+     if N.eqb g target
+     then get_log (logs st) target ++ [if is_script fn then (fn, args ++ [AI 0]) else (fn, args)]
+     else get_log (logs st) g) /\
   ret = Z.of_nat (length (get_log (logs st') target)).
 Proof. exact forward_target_once. Qed.
 Print Assumptions C19_target_once.
@@ -196,14 +209,16 @@ Print Assumptions C19_state_survives_ledger_gaps.
    outcomes and getter values) accepts every run of the model, and the model agrees with itself;
    it is what is run on the implementation's traces. *)
 Theorem C19_monitor_accepts_model : forall (c : cfg) (cs : list call),
-  1 <= min_temp_ttl (c_host c) -> check (observe_model c cs) = (0%N, 0%N, 0%N).
+  1 <= min_temp_ttl (c_host c) -> forallb (wf_call c) cs = true ->
+  check (observe_model c cs) = (0%N, 0%N, 0%N).
 Proof. exact check_accepts_model. Qed.
 Print Assumptions C19_monitor_accepts_model.
 
 (* ---- non-vacuity: a concrete history with successful forwards through both examples ---- *)
 Example C19_example_run :
-  outcomes ex_trace = [Ok 0; Ok 1; Ok 0; Ok 2; Fail; Ok 0; Ok 0; Fail; Ok 0]
+  outcomes ex_trace = [Ok 0; Ok 1; Ok 0; Ok 2; Fail; Ok 0; Ok 0; Fail; Ok 0; Ok 3; Fail]
   /\ check ex_trace = (0%N, 0%N, 0%N)
+  /\ forallb (wf_call ex_cfg) ex_calls = true
   /\ 1 <= min_temp_ttl (c_host ex_cfg)
   /\ snd (run_abs ex_cfg ex_calls) = [3%N]
   /\ enumeration (al (run ex_cfg ex_calls)) = [Some 3%N].
@@ -282,4 +297,16 @@ Example C19_monitor_rejects_lapsed_balance :
 Proof. vm_compute. reflexivity. Qed.
 Example C19_monitor_rejects_lapsed_allowlist :
   snd (fst (check (tamper 8 (on_obs (set_enum 0%N [])) ex_trace))) = 9%N.
+Proof. vm_compute. reflexivity. Qed.
+(* a re-entering target (call #10 of the example: it tries to pull the user's remaining allowance
+   through the forwarder while being forwarded) got its inner transfer_from through: logged as
+   successful / the money moved / the remaining allowance is gone *)
+Example C19_monitor_rejects_reentrant_pull_logged :
+  snd (fst (check (tamper 9 (on_obs pull_went_through) ex_trace))) = 10%N.
+Proof. vm_compute. reflexivity. Qed.
+Example C19_monitor_rejects_reentrant_pull_debit :
+  snd (fst (check (tamper 9 (on_obs (fun o => bump_bal 2 25 (bump_bal 0 (-25) o))) ex_trace))) = 10%N.
+Proof. vm_compute. reflexivity. Qed.
+Example C19_monitor_rejects_reentrant_pull_allowance :
+  snd (fst (check (tamper 9 (on_obs (put_alw 1 (0, 200))) ex_trace))) = 10%N.
 Proof. vm_compute. reflexivity. Qed.
